@@ -1,0 +1,29 @@
+//go:build verif
+
+package zcnsc
+
+// Verification hook (build tag `verif` only; add-only): read-only view of the stored ZCN bridge
+// global node; `valid` is the verdict of the contract's own Validate().
+
+import (
+	"time"
+
+	cstate "0chain.net/chaincore/chain/state"
+)
+
+func VerifGovSettings(balances cstate.StateContextI) (fields map[string]string, raw map[string]int64, valid bool, owner string, err error) {
+	gn, err := GetGlobalSavedNode(balances)
+	if err != nil {
+		return nil, nil, false, "", err
+	}
+	raw = map[string]int64{
+		"min_authorizers":     gn.MinAuthorizers,
+		"max_delegates":       int64(gn.MaxDelegates),
+		"min_lock":            int64(gn.MinLockAmount),
+		"min_mint":            int64(gn.MinMintAmount),
+		"min_burn":            int64(gn.MinBurnAmount),
+		"max_fee":             int64(gn.MaxFee),
+		"health_check_period": int64(gn.HealthCheckPeriod / time.Second),
+	}
+	return gn.ToStringMap().Fields, raw, gn.Validate() == nil, gn.OwnerId, nil
+}
